@@ -413,6 +413,14 @@ func BumpGeneration(old, obj client.Object, touch bool) {
 		changed = changed || !reflect.DeepEqual(n.Spec, old.(*api.Service).Spec)
 	case *networking.IngressClass:
 		changed = changed || !reflect.DeepEqual(n.Spec, old.(*networking.IngressClass).Spec)
+	case *gatewayv1.GatewayClass:
+		changed = changed || !reflect.DeepEqual(n.Spec, old.(*gatewayv1.GatewayClass).Spec)
+	case *gatewayv1.Gateway:
+		changed = changed || !reflect.DeepEqual(n.Spec, old.(*gatewayv1.Gateway).Spec)
+	case *gatewayv1.HTTPRoute:
+		changed = changed || !reflect.DeepEqual(n.Spec, old.(*gatewayv1.HTTPRoute).Spec)
+	case *gatewayv1alpha2.TCPRoute:
+		changed = changed || !reflect.DeepEqual(n.Spec, old.(*gatewayv1alpha2.TCPRoute).Spec)
 	default:
 		changed = false
 	}
